@@ -24,7 +24,7 @@ REQUIRED = ['units_run_under_python_-O', 'selected', 'not_found', 'multi_candida
 EXHAUSTIVE = {'quick': False, 'thorough': False,
               'thorough_note': 'the exh units enumerate completely: rule sets of size<=3 from the 14-rule universe x all paths of length<=6 over {a,b,/,1,CR}'}
 ASSUMPTIONS = ['paths are normalised as documented: leading/trailing separators are ignored (RadiRouter.resolve)',
-               'where the statement is silent (a wildcard capturing the empty string) only what holds under both readings is demanded',
+               'where the statement is silent (a plain wildcard capturing the empty string; any wildcard left with nothing at the end of the path) only what holds under both readings is demanded; a regular-expression filter that accepts the empty text in the middle of a path has accepted it',
                'rule literals never contain CR, {, <, : ; rules starting with // are refused by the router and not part of any rule set',
                'rex filters with selectors are outside the quantifier']
 
